@@ -296,7 +296,7 @@ def c07_family(V, cfg, mk_uni, start_scanned, tag):
             return None
         if t == "imported":
             return {"op": "imported", "path": p}
-        if t == "close":
+        if t in ("close", "closem"):
             return {"op": "close", "path": p}
         if t == "open":
             # didOpen of an unmodified document: the text on disk handed to analyze_file
@@ -323,7 +323,7 @@ def c07_family(V, cfg, mk_uni, start_scanned, tag):
             ops += first
             cur2 = dict(disk_r)
             for ev in hist[:-1]:
-                if ev["t"] in ("edit", "scan"):
+                if ev["t"] in ("edit", "scan", "closem"):        # closem: the cold twin closes the modified document too
                     ops.append(ev_ops(ev, cur2))
             ops.append(ev_ops(hist[-1], cur2))
             if any(o is None for o in ops):
@@ -386,7 +386,9 @@ def check_c07(tier):
     C.build_harness()
     fams = [("History_c07_%s.cfg" % tier, mk_universe, True, "main"),
             ("History_c07scan_%s.cfg" % tier, mk_universe, False, "scan"),
-            ("History_c07chain_%s.cfg" % tier, mk_universe2, True, "chain")]
+            ("History_c07chain_%s.cfg" % tier, mk_universe2, True, "chain"),
+            # closes of MODIFIED documents (never saved): only the invisibility of earlier queries is judged there
+            ("History_c07mod_%s.cfg" % tier, mk_universe, True, "mod")]
     metas, replayed = [], 0
     for cfg, mk, scanned, tag in fams:
         m, n = c07_family(V, cfg, mk, scanned, tag)
